@@ -65,6 +65,15 @@ def _ls_elements(_):
                         out[kind].append(e.hex())
                 except Exception:
                     pass
+    # NLRIs of the descriptor grid of spec/WireTlv.tla (every NLRI type x two protocols x one descriptor of every kind)
+    for ep, hx in check_decoders.gen('lsnlri', 1)['vecs']:
+        if ep != 'BGPLS.parse':
+            continue
+        try:
+            if len(C.decode('lsnlri', [bytes.fromhex(hx)])) == 1:
+                out['lsnlri'].append(hx)
+        except Exception:
+            pass
     for k in out:
         out[k] = sorted(set(out[k]))
     return out
@@ -130,6 +139,17 @@ def run(prop, tier, seed):
                 k = rnd.randint(3, 6)
                 parts = [rnd.choice(pool_) for _ in range(k)]
                 jobs.append((ident, 'concat', kind, _cls(kind, parts, '%s:k%d' % (kind, k)), parts, None))
+                ident += 1
+        # BGP-LS NLRIs that differ in nothing but the protocol octet (the same descriptor octets mean different things under
+        # IS-IS and OSPF), next to each other in one list
+        sib = {}
+        for hx in sorted(set(pools.get('lsnlri', []))):
+            sib.setdefault(hx[:8] + hx[10:], []).append(hx)
+        groups = [g for g in sib.values() if len(g) >= 2]
+        groups.sort(key=lambda g: (0 if g[0][26:30] in ('0100', '0101') else 1, g[0]))
+        for g in groups[:400 if tier == 'quick' else 10 ** 6]:
+            for parts in ([g[0], g[1]], [g[1], g[0]], [g[0], g[1], g[0]]):
+                jobs.append((ident, 'concat', 'lsnlri', 'lsnlri:siblings', parts, None))
                 ident += 1
         # the known IPv6 special case, always exercised (a list ending with two default routes)
         for parts in (['00', '00'], ['4020010db800000000', '00', '00']):
